@@ -269,6 +269,12 @@ func streamDiscover(c *ctx) {
 		for i := 0; i < k; i++ {
 			cl := classes[r.Intn(len(classes))]
 			b := validReply(r, messages.GetDeviceResponse{}, serials[r.Intn(len(serials))])
+			if r.Chance(1, 6) { // a controller that has no address yet (factory state, waiting for DHCP) reports 0.0.0.0
+				copy(b[8:12], []byte{0, 0, 0, 0})
+				if r.Bool() {
+					copy(b[12:20], []byte{0, 0, 0, 0, 0, 0, 0, 0})
+				}
+			}
 			switch cl {
 			case "duplicate":
 				if last != nil {
